@@ -5,7 +5,7 @@ import ast
 from ..model import AnalysisError, src
 from ..paths import walk_no_defs
 from ..callgraph import fmt
-from .. import sa, ctx as ctxmod, purity
+from .. import abshelp as H, sa, ctx as ctxmod, purity
 
 PLY_GLOBALS = ('ply.lex.lexer', 'ply.lex.token', 'ply.lex.input', 'ply.yacc.parse', 'ply.yacc.token',
                'ply.yacc.errok', 'ply.yacc.restart', 'ply.yacc.parser')
@@ -32,11 +32,11 @@ def run(model, res, tier):
     res.rule('R5', 'no write to shared state in code reachable from parse()')
     res.assumptions += ['A3 ply: LRParser.parse keeps its stacks in locals and falls back to lex.lexer when lexer= is not given']
     res.trusted += ['CPython ast', 'ply 3.11 source as read', 'hxsa/effects.py ownership models']
-    _r1(model, res, c)
+    H.safely(res, 'R1', 'r1', _r1, model, res, c)
     instance_state(model, res, c, 'R2')
     shared_locks(model, res, c, 'R2')
-    _r3(model, res, c)
-    _r4(model, res, c)
+    H.safely(res, 'R3', 'r3', _r3, model, res, c)
+    H.safely(res, 'R4', 'r4', _r4, model, res, c)
     n = purity.check_region(res, c, 'R5', None, c.reach, 'evaluation')
     res.floor('mutation events examined for R5', n, 10)
     purity.check_memo(res, c, 'R5', c.reach, 'a function used during evaluation')
@@ -245,9 +245,22 @@ def shared_locks(model, res, c, R):
                     for t in node.targets:
                         if isinstance(t, ast.Name):
                             shared[t.id] = (m, node, 'class-level %s.%s' % (cls.name, t.id))
-    res.analysed['shared synchronisation objects'] = sorted(v[2] for v in shared.values())
+    # a lock of one's own (self.x = RLock() in a method) is not shared, but held while host code runs it still couples parsers: a
+    # listener of parser A that evaluates on parser B while another thread does the reverse waits for ever (lock-order inversion)
+    for m, q, f in model.all_functions():
+        owner = m.enclosing_class(f)
+        if owner is None:
+            continue
+        s_ = sa.self_name(f)
+        for node in walk_no_defs(f):
+            if isinstance(node, ast.Assign) and isinstance(node.value, ast.Call) and \
+                    (sa.call_name(node.value) or '').split('.')[-1] in LOCK_CTORS and 'thread' in (sa.call_name(node.value) or 'threading').lower() + 'thread':
+                for t in node.targets:
+                    if isinstance(t, ast.Attribute) and isinstance(t.value, ast.Name) and t.value.id == s_ and t.attr not in shared:
+                        shared[t.attr] = (m, node, 'per-object %s.%s' % (owner.name, t.attr))
+    res.analysed['synchronisation objects'] = sorted(v[2] for v in shared.values())
     if not shared:
-        res.ob(R, 'package', 'no class-level or module-level lock object', True)
+        res.ob(R, 'package', 'no lock object in the package', True)
         return
     host_calling = set(k for k in cg.funcs if _value_calls(cg, k))
     for k in sorted(c.reach):
@@ -268,15 +281,26 @@ def shared_locks(model, res, c, R):
             callees = set()
             for x in body_calls:
                 callees |= cg.sites.get((k, id(x)), set())
+                # running the ply parser runs the grammar actions (and through them the callbacks, listeners and functions)
+                if isinstance(x.func, ast.Attribute) and x.func.attr == 'parse' and isinstance(x.func.value, ast.Attribute) \
+                        and x.func.value.attr in cg.yacc_attrs:
+                    callees |= set(cg.p_roots)
             via = sorted(cg.reachable(sorted(callees)) & host_calling) if callees else []
             bad = bool(direct) or bool(via)
             res.ob(R, fmt(k), 'with %s' % held[2], not bad, 'host code runs while the lock is held' if bad else 'no host code under the lock')
             if bad:
+                # name a callback rather than an arbitrary function that calls a value
+                via = sorted(via, key=lambda kk: (0 if 'call_' in kk[1] or 'emit' in kk[1] else 1, kk))
                 what = src(direct[0]) if direct else 'via %s' % fmt(via[0])
-                res.violation(R, '%s:%s:shared-lock-held-over-host-code' % k, m.where(n),
-                              'the %s lock is one object for every parser and is held while host code runs (%s): a listener or custom '
-                              'function that waits for an evaluation on another parser in another thread blocks forever, and evaluations on '
-                              'different parsers serialise each other' % (held[2], what), func=k[1])
+                if held[2].startswith('per-object'):
+                    why = ('the %s lock is held while host code runs (%s): a listener or custom function of this parser that evaluates on '
+                           'another parser, while a second thread does the same the other way round, makes both wait for ever '
+                           '(the two locks are taken in opposite order)' % (held[2], what))
+                else:
+                    why = ('the %s lock is one object for every parser and is held while host code runs (%s): a listener or custom '
+                           'function that waits for an evaluation on another parser in another thread blocks forever, and evaluations on '
+                           'different parsers serialise each other' % (held[2], what))
+                res.violation(R, '%s:%s:shared-lock-held-over-host-code' % k, m.where(n), why, func=k[1])
 
 
 def _r3(model, res, c):
